@@ -429,6 +429,12 @@ def gParams (eps : α) (c : Ctor) (shape : List Nat) (data : List α) : RelaxedP
     let ls := rows.map (logSoftmaxRow T)
     ⟨B, [V], (ls.map (softmaxRow T)).flatten, ls.flatten⟩
 
+/-- `dist.expand(pre ++ batch_shape)` (new leading batch axes): both attributes are `expand`ed,
+i.e. repeated along the new axes; the event shape stays. -/
+def RelaxedParams.expand (P : RelaxedParams α) (pre : List Nat) : RelaxedParams α :=
+  ⟨pre ++ P.batchShape, P.eventShape, (List.replicate (prodL pre) P.probs).flatten,
+    (List.replicate (prodL pre) P.logits).flatten⟩
+
 /-- Broadcasting of a tensor of shape `sample_shape ++ batch_shape` (draws, samples, `b`) against
 a parameter of shape `batch_shape` (`B` entries): the entry of flat index `n` meets the parameter
 entry of flat index `n % B`. -/
